@@ -123,10 +123,14 @@ def hexital_models(pid, tier):
               "{none,8}; streams <= %d over gaps {0,1,2,4,7}, chunks <= %d, 0..2 candles at construction, "
               "member present from the start or added later" % ((4, 2) if q else (5, 3)))
     return [mc.run_model("MC_Hexital", "MC_Hexital", "MC_Hexital_quick.cfg" if q else "MC_Hexital.cfg", consts, timeout=3400),
-            mc.run_model("MC_Hexital K01 class (must fail)", "MC_Hexital", "MC_Hexital_K01.cfg",
-                         "quick constants; the invariant without the lifespan exclusion", expect_violation="K01_Holds"),
-            mc.run_model("MC_Hexital K02 class (must fail)", "MC_Hexital", "MC_Hexital_K02.cfg",
-                         "quick constants; the invariant without the fill exclusion", expect_violation="K02_Holds")]
+            mc.run_model("MC_Hexital+from_default (as shipped before the repair of K01/K02; must fail)", "MC_Hexital",
+                         "MC_Hexital_devK.cfg", "quick constants, Dev={from_default}", expect_violation="C08_AtConstruction"),
+            mc.run_model("MC_Hexital late member under a lifespan (outside the claim; must fail)", "MC_Hexital",
+                         "MC_Hexital_K01.cfg", "quick constants; the invariant without the lifespan exclusion for late members",
+                         expect_violation="K01_Holds"),
+            mc.run_model("MC_Hexital late member under gap filling (outside the claim; must fail)", "MC_Hexital",
+                         "MC_Hexital_K02.cfg", "quick constants; the invariant without the fill exclusion for late members",
+                         expect_violation="K02_Holds")]
 
 
 def lifespan_models(pid, tier):
